@@ -186,6 +186,12 @@ theorem C01_conservation_entry (cfg : Config) (rs : List Rec) (hr : cfg.reuse = 
   intro x hx
   simp only [Function.comp, g3 x hx]
 
+/-- The incarnation-tagged samples `acceptedInc` are the accepted samples, in order, each with two more fields:
+`C01_conservation_entry` refines `C01_conservation` (same pid, tid, time; plus the incarnation). -/
+theorem C01_acceptedInc_accepted (ref : Nat) (rs : List Rec) :
+    (acceptedInc ref rs).map (fun a => (a.pid, a.tid, a.t)) = (accepted rs).map (fun a => (a.pid, a.tid, a.t)) :=
+  acceptedInc_accepted ref rs
+
 /-- with thread reuse enabled samples may be merged into entries of earlier incarnations, but still every
     accepted sample appears exactly once at its time with weight 1 and no other recorded sample appears -/
 theorem C01_conservation_reuse (cfg : Config) (rs : List Rec) :
@@ -313,6 +319,16 @@ example : ((views (run { ref := 12 } C01_exHistory)).flatMap (fun v => v.samples
 
 /-- the hypotheses of `C01_conservation` hold for the default configuration, and both sides are non-trivial -/
 example : ({ ref := 12 } : Config).reuse = false := rfl
+
+/-- the hypotheses of `C01_conservation_entry` and `C01_no_panic` hold for this history; pid 100 is re-created on
+demand after its EXIT, so the later samples belong to the second incarnation (`100.1`) -/
+example : Life.grammarOk 12 C01_exHistory = true ∧ hasCsRec C01_exHistory = false ∧
+    samplesMonotone C01_exHistory = true ∧
+    (acceptedInc 12 C01_exHistory).map (fun a => (idStr a.pid a.psuffix, idStr a.tid a.tsuffix, a.t - 12)) =
+      [("100", "100", 0), ("100.1", "100.1", 2), ("100.1", "101", 2)] ∧
+    ((views (run { ref := 12 } C01_exHistory)).flatMap (fun v => v.samples.map (fun o => (v.pid, v.tid, o.t)))) =
+      [("100", "100", 0), ("100.1", "100.1", 2), ("100.1", "101", 2)] ∧
+    (run { ref := 12 } C01_exHistory).bad = false := by decide
 
 /-- Thread reuse: tid 101 ("w") exits, tid 102 is forked and named "w" and takes over the entry of 101. -/
 def C01_exReuse : List Rec :=
